@@ -50,6 +50,9 @@ MODULE_FUNCS = {
     "np.empty": ("np", "empty"),
     "np.argsort": ("np", "argsort"),
     "np.unique": ("np", "unique"),
+    "np.array_equal": ("np", "array_equal"),
+    "np.hstack": ("np", "hstack"),
+    "np.vstack": ("np", "vstack"),
 }
 CLASS_METHODS = {
     "Molecule.from_arrays": (Molecule, "from_arrays", True),
@@ -58,6 +61,45 @@ CLASS_METHODS = {
     "UnitCell.to_fractional": (UnitCell, "to_fractional", False),
 }
 TARGETS = tuple(GLOBAL_CALLABLES) + tuple(MODULE_FUNCS) + tuple(CLASS_METHODS)
+
+
+def _patch(target, on_call, stack=False):
+    """Install a call counter/fault on one seam; returns the undo function."""
+    if target in GLOBAL_CALLABLES:
+        real = getattr(CR, target)
+        setattr(CR, target, _CallableProxy(real, on_call))
+        return lambda: setattr(CR, target, real)
+    if target in MODULE_FUNCS:
+        mod_name, fn_name = MODULE_FUNCS[target]
+        current = getattr(CR, mod_name)  # real module, or a proxy when stacking
+        real_fn = getattr(current, fn_name)
+
+        def wrapper(*a, **k):
+            on_call()
+            return real_fn(*a, **k)
+
+        setattr(CR, mod_name, _ModuleProxy(current, fn_name, wrapper))
+        return lambda: setattr(CR, mod_name, current)
+    if target in CLASS_METHODS:
+        cls, name, is_classmethod = CLASS_METHODS[target]
+        raw = cls.__dict__[name]
+        if is_classmethod:
+            fn = raw.__func__
+
+            def cm(c, *a, **k):
+                on_call()
+                return fn(c, *a, **k)
+
+            setattr(cls, name, classmethod(cm))
+        else:
+
+            def m(self_, *a, **k):
+                on_call()
+                return raw(self_, *a, **k)
+
+            setattr(cls, name, m)
+        return lambda: setattr(cls, name, raw)
+    raise KeyError(target)
 
 
 class Injector:
@@ -85,42 +127,36 @@ class Injector:
                 inj.fired = True
                 raise exc_cls("injected failure in %s (call %d)" % (target, nth))
 
-        if target in GLOBAL_CALLABLES:
-            real = getattr(CR, target)
-            setattr(CR, target, _CallableProxy(real, on_call))
-            self._undo = lambda: setattr(CR, target, real)
-        elif target in MODULE_FUNCS:
-            mod_name, fn_name = MODULE_FUNCS[target]
-            real_mod = getattr(CR, mod_name)
-            real_fn = getattr(real_mod, fn_name)
+        self._undo = _patch(target, on_call)
 
-            def wrapper(*a, **k):
-                on_call()
-                return real_fn(*a, **k)
+    def probe(self, thunk):
+        """Run `thunk()` with every seam counted (nothing raised by us);
+        returns {target: number of calls}. Used by the generator to aim a
+        fault at a call that will actually happen."""
+        assert self._undo is None, "injector already armed"
+        counts = {}
+        undos = []
+        seen_modules = set()
+        for target in TARGETS:
+            counts[target] = 0
 
-            setattr(CR, mod_name, _ModuleProxy(real_mod, fn_name, wrapper))
-            self._undo = lambda: setattr(CR, mod_name, real_mod)
-        elif target in CLASS_METHODS:
-            cls, name, is_classmethod = CLASS_METHODS[target]
-            raw = cls.__dict__[name]
-            if is_classmethod:
-                fn = raw.__func__
+            def on_call(t=target):
+                counts[t] += 1
 
-                def cm(c, *a, **k):
-                    on_call()
-                    return fn(c, *a, **k)
-
-                setattr(cls, name, classmethod(cm))
+            if target in MODULE_FUNCS:
+                # one proxy per module global: chain the wrappers
+                undos.append(_patch(target, on_call, stack=True))
             else:
-
-                def m(self_, *a, **k):
-                    on_call()
-                    return raw(self_, *a, **k)
-
-                setattr(cls, name, m)
-            self._undo = lambda: setattr(cls, name, raw)
-        else:
-            raise KeyError(target)
+                undos.append(_patch(target, on_call))
+        try:
+            try:
+                thunk()
+            except Exception:  # noqa: BLE001 - the probe's outcome is irrelevant
+                pass
+        finally:
+            for u in reversed(undos):
+                u()
+        return counts
 
     def disarm(self):
         if self._undo is not None:
